@@ -182,14 +182,15 @@ Arguments IRel {St Lc} deferred.
 (* ------------------------------------------------------------------------------------------------ *)
 (* What the translator harness/astfacts16 extracts from /repo on every run (coq/gen/Facts16.v).       *)
 Record serve_facts : Type := {
-  (* rest.MuxImpl.ServeHTTP: first statement is  <recv>.<mutex field>.Lock()  on a sync.Mutex field of the receiver's
-     struct, the method has a pointer receiver (a value receiver would copy the mutex per call) *)
+  (* rest.MuxImpl.ServeHTTP contains the statement  <recv>.<mutex field>.Lock()  on a sync.Mutex field of the receiver's
+     struct (preceded at most by the receipt log line), and the method has a pointer receiver (a value receiver would
+     copy the mutex per call) *)
   sf_lock_first : bool;
-  (* second statement is  defer <recv>.<the same field>.Unlock() *)
+  (* the next statement is  defer <recv>.<the same field>.Unlock() *)
   sf_unlock_deferred : bool;
   (* an Unlock of the same mutex exists somewhere after the Lock (deferred or as the last statement) *)
   sf_unlock_present : bool;
-  (* number of call expressions in the body that precede the Lock statement (dispatch before the lock) *)
+  (* number of handler look-ups / invocations that precede the Lock statement (dispatch before the lock) *)
   sf_calls_before_lock : nat;
   (* other Lock/Unlock/TryLock/RLock... calls on that mutex anywhere else in the package (early release) *)
   sf_other_mutex_ops : nat;
